@@ -101,6 +101,25 @@ def hReadTextUniv : Handler := handler fun args =>
     pure (okNatss (readTextUniv ieee (← data.toNats?) (← toOptNat? bs)))
   | _ => none
 
+def ofIdxLines (ps : List (List (Nat × List Nat))) : SExp :=
+  .list (ps.map fun p => .list (p.map fun il => .list [SExp.ofNat il.1, SExp.ofNats il.2]))
+
+/-- `(readtextfiles (d…) ((file…)…) fpp|none bs|none)` ↦ `(ok ((idx (line…))…)…)` partitions -/
+def hReadTextFiles : Handler := handler fun args =>
+  match args with
+  | [d, files, fpp, bs] => do
+    let d ← d.toNats?
+    let files ← files.toNatss?
+    let fpp ← toOptNat? fpp
+    let bs ← toOptNat? bs
+    let r := match bs with
+      | none => readTextFiles d files fpp
+      | some b => readTextFilesBlocks ieee d files b
+    match r with
+    | some ps => pure (.list [.sym "ok", ofIdxLines ps])
+    | none => pure raised
+  | _ => none
+
 def hHasBorder : Handler := handler fun args =>
   match args with
   | [d] => do pure (SExp.ofBool (hasBorder (← d.toNats?)))
@@ -111,7 +130,7 @@ def tableC50 : List (String × Handler) := [
   ("readblock", hReadBlock), ("readblockchunked", hReadBlockChunked), ("fileblocks", hFileBlocks),
   ("pysplit", two pySplit), ("decode", two decode), ("ftb", two fileToBlocks),
   ("ftborig", two fileToBlocksOrig), ("decodeorig", two decodeOrig), ("reflines", two refLines), ("univlines", hUniv),
-  ("readtext", hReadText), ("readtextuniv", hReadTextUniv), ("hasborder", hHasBorder)]
+  ("readtext", hReadText), ("readtextuniv", hReadTextUniv), ("readtextfiles", hReadTextFiles), ("hasborder", hHasBorder)]
 
 end BagDriver
 
